@@ -28,6 +28,8 @@ const File::Mode WMODES[] = {File::Mode::Write, File::Mode::WriteText, File::Mod
 const char *WMODE_NAMES[] = {"Write", "WriteText", "Append", "AppendText"};
 
 void bad(const std::string &sig, const std::string &msg) { violation(sig, msg); }
+// every case must give back the descriptors it opened (a File that is re-opened, closed or destroyed releases its stream)
+struct FdGuard { int before = open_fds(); ~FdGuard() { int leaked = open_fds() - before; if (leaked > 0) bad("file:descriptor-leak", fmt("%d file descriptor(s) are still open after all File objects of this case were closed or destroyed", leaked)); } };
 
 // ---- round trip: write `content` in the pieces given by `mask` (bit i set = cut after byte i), through API `api`, then read back every way
 void round_trip(const Bytes &content, unsigned mask, int wmode, bool pre, int api, const std::string &path) {
@@ -282,11 +284,11 @@ void explore() {
             if (b.empty() ? first != 0 : (unsigned char)b[0] != ALPHA[first]) return;
             if (deadline_passed()) { shm->exhaustive = 0; return; }
             unsigned nmask = b.size() > 1 ? 1u << (b.size() - 1) : 1;
-            for (unsigned mask = 0; mask < nmask; mask++) { mark(case_rt(b, mask, 0, false, 0)); round_trip(b, mask, 0, false, 0, path); shm->evaluations++; shm->nontrivial += !b.empty(); shm->states++; }
+            for (unsigned mask = 0; mask < nmask; mask++) { mark(case_rt(b, mask, 0, false, 0)); FdGuard fdg; round_trip(b, mask, 0, false, 0, path); shm->evaluations++; shm->nontrivial += !b.empty(); shm->states++; }
             for (int wmode = 0; wmode < 4; wmode++) for (int pre = 0; pre < 2; pre++) for (int api = 0; api < 3; api++) {
                 if (wmode == 0 && !pre && api == 0) continue;
                 unsigned mask = (unsigned)(b.size() * 2654435761u) & (nmask - 1);
-                mark(case_rt(b, mask, wmode, pre, api)); round_trip(b, mask, wmode, pre, api, path); shm->evaluations++; shm->nontrivial += !b.empty();
+                mark(case_rt(b, mask, wmode, pre, api)); FdGuard fdg; round_trip(b, mask, wmode, pre, api, path); shm->evaluations++; shm->nontrivial += !b.empty();
             }
             if (shm->evaluations % 4001 < 24 && shm->nsamples < 2) sample(case_rt(b, 0, 0, false, 0));
         });
@@ -300,7 +302,7 @@ void explore() {
                 mark(fmt("large size=%zu cut=%zu", size, cut)); large(size, cut, path); shm->evaluations++; shm->nontrivial++; shm->states++;
             }
         sample("large size=1048579 cut=4096");
-        mark("errors"); errors(dir); shm->evaluations++;
+        mark("errors"); { FdGuard fdg; errors(dir); } shm->evaluations++;
     });
     // (c) every sequence of seek/tell/size/read calls up to the depth bound on a 3-byte file, both read modes
     int depth = thorough() ? 4 : 3;
@@ -314,7 +316,7 @@ void explore() {
             std::vector<int> ix(len, 0); ix[0] = firstop;
             for (;;) {
                 std::vector<SeekOp> ops; std::string name; for (int i = 0; i < len; i++) { ops.push_back(alpha[ix[i]]); name += " " + sop_str(alpha[ix[i]]); }
-                for (int rm = 0; rm < 2; rm++) { mark(fmt("seek rm=%d ops=", rm) + name); seek_sequence(content, rm ? File::Mode::ReadText : File::Mode::Read, ops, path, &states); shm->evaluations++; shm->nontrivial++; }
+                for (int rm = 0; rm < 2; rm++) { mark(fmt("seek rm=%d ops=", rm) + name); FdGuard fdg; seek_sequence(content, rm ? File::Mode::ReadText : File::Mode::Read, ops, path, &states); shm->evaluations++; shm->nontrivial++; }
                 int i = 1; while (i < len && ++ix[i] == (int)alpha.size()) ix[i++] = 0;
                 if (i >= len) break;
             }
@@ -334,7 +336,7 @@ void explore() {
                 if (deadline_passed()) { shm->exhaustive = 0; break; }
                 std::vector<SessOp> ops; for (int i = 0; i < len; i++) ops.push_back(salpha[ix[i]]);
                 mark(sess_name(initial, ops));
-                int inv = session(ops, dir, initial, &states);
+                int inv; { FdGuard fdg; inv = session(ops, dir, initial, &states); }
                 if (inv < 0) { shm->evaluations++; shm->nontrivial++; }
                 int i = inv >= 0 ? inv : len - 1;                      // an invalid op: skip every history with this prefix
                 for (int j = i + 1; j < len; j++) ix[j] = 0;
@@ -359,6 +361,7 @@ void replay(const std::string &hist) {
     std::string root = fmt("/dev/shm/tulz-verif-file-replay-%d", (int)getpid());
     fs::remove_all(root); fs::create_directories(root); std::string path = root + "/f";
     char content[64]; unsigned mask; int wmode, pre, api, rm; size_t size, cut;
+    FdGuard *fdg = new FdGuard;
     if (sscanf(hist.c_str(), "rt content=%63s mask=%u wmode=%d pre=%d api=%d", content, &mask, &wmode, &pre, &api) == 5) round_trip(unhex(content), mask, wmode, pre, api, path);
     else if (sscanf(hist.c_str(), "large size=%zu cut=%zu", &size, &cut) == 2) large(size, cut, path);
     else if (hist == "errors") errors(root);
@@ -372,6 +375,7 @@ void replay(const std::string &hist) {
         while (ss >> tok) for (auto &a : alpha) if (eop_str(a) == tok) ops.push_back(a);
         session(ops, root, initial, nullptr);
     } else violation("replay:parse", "cannot parse " + hist);
+    delete fdg;
     fs::remove_all(root);
 }
 }  // namespace
